@@ -81,7 +81,7 @@ theorem feed_checks (c : Ctx) (P : List Nat) (ps : List Payload) (pre url : List
     (hgood : ∀ p ∈ ps, goodPayload p = true)
     (hP : P.Nodup) (hPa : ∀ k ∈ P, k ≠ 0 → k ∈ c.m.started ∧ k ∉ c.m.finished)
     (hPb : ∀ k, k ≠ 0 → k ∈ c.m.posted → k ∉ c.m.finished → k ∈ P)
-    (hP0 : c.m.connRet = false → 0 ∈ P)
+    (hP0 : Payload.resp 0 true ∈ ps → c.m.connRet = false → 0 ∈ P)
     (hop : ∃ n ch, c.op = .feed n ch)
     (hterm : c.m.termSeen = false)
     (hnts : c.m.nts = notifsOf (c.scn.msgsUpTo c.m.nComplete))
@@ -185,7 +185,7 @@ theorem feed_checks (c : Ctx) (P : List Nat) (ps : List Payload) (pre url : List
         · have hcr' : c.m.connRet = false := by simpa using hcr
           have : Tok.connOk ∈ c.toks := by
             rw [htoks]; simp only [List.mem_append]
-            exact Or.inl (Or.inr (hRun_connOk _ _ _ (hP0 hcr') hp hgood))
+            exact Or.inl (Or.inr (hRun_connOk _ _ _ (hP0 hp hcr') hp hgood))
           simp [this]
       · simp only [hk, ite_false]
         have hk0 : k ≠ 0 := by
